@@ -25,7 +25,7 @@ CFG = {
         {"component": "apiatomic", "bin": "ice.test", "timeout_quick": 120, "timeout_thorough": 400},
         {"component": "apihammer", "bin": "ice.test", "race": True, "tiers": ["thorough"], "timeout_thorough": 400},
     ],
-    "rule": "taskloop: 7 source-shape lines, one line per off-loop access of an Agent field (static walk of /repo) and per field "
+    "rule": "apiatomic scenario midtask: the composite getters queue behind a task parked on the loop; taskloop: 7 source-shape lines, one line per off-loop access of an Agent field (static walk of /repo) and per field "
             "class, then recorded histories of the real Loop: quick 600, thorough 30000 (half inside testing/synctest bubbles with "
             "virtual-time choreography, half under the real scheduler; GOMAXPROCS 1/2/4/16; 0-9 submitters + children, 1-4 "
             "closers; contexts: background / cancelled at a random moment / pre-cancelled / the loop itself; tasks: instant, "
